@@ -453,7 +453,93 @@ def _policy_sample_law(ctx):
             ctx.phi_fail("keyed_samples_follow_the_reported_law", case, key="ac:joint-sample-law")
 
 
+def _sac_saturated(ctx):
+    """SAC with a key, far in the tail: the log-probability reported together with an action is the law's
+    log-density of the pre-squash draw x = mu + sigma z — finite and exact also where the squashed action is
+    (almost) at a bound.  z is read from an unsaturated twin policy (mean 0) driven with the same key."""
+    rng = ctx.rng
+    ft = jnp.float64 if ctx.x64 else jnp.float32
+    for shape in [(), (2,)]:
+        space = Box(-jnp.ones(shape, ft), jnp.ones(shape, ft)) if shape else Box(jnp.asarray(-1.0, ft), jnp.asarray(1.0, ft))
+        policy = _construct(ctx, MLPSACPolicy, f"Box{shape}", space, feature_size=4, width_size=4, depth=1,
+                            key=jr.key(int(rng.integers(2**31))))
+        if policy is None:
+            continue
+        obs = jnp.asarray(rng.uniform(-1, 1, OBS_DIM), dtype=ft)
+
+        def with_mean(m):
+            return eqx.tree_at(lambda p: (p.mean_head.weight, p.mean_head.bias, p.log_std_head.weight), policy,
+                               (jnp.zeros_like(policy.mean_head.weight), jnp.full_like(policy.mean_head.bias, m),
+                                jnp.zeros_like(policy.log_std_head.weight)))
+
+        twin = with_mean(0.0)
+        _, dist0 = twin.action_distribution(None, obs)
+        sigma = np.asarray(getattr(dist0, "scale", None) if shape == () else getattr(dist0, "scale_diag", None), np.float64).reshape(-1)
+        if sigma.size == 0 or not np.isfinite(sigma).all():
+            ctx.note("sac-saturated: scale of the action distribution not readable; clause skipped")
+            return
+        K = ctx.budget(48, 200)
+        keys = jr.split(jr.key(int(rng.integers(2**31))), K)
+        y0 = np.asarray(jax.vmap(lambda k: twin.action_and_log_prob(None, obs, key=k)[1])(keys), np.float64).reshape(K, -1)
+        u0 = np.clip((y0 + 1.0) / 2.0, 1e-12, 1 - 1e-12)
+        x0 = np.log(u0) - np.log1p(-u0)
+        z = x0 / sigma
+        good = (np.abs(x0) <= 4.0).all(axis=1)
+        for mu in (12.0, 15.0, 18.0):
+            pol = with_mean(mu)
+            act, lp = jax.vmap(lambda k: pol.action_and_log_prob(None, obs, key=k)[1:])(keys)
+            lp = np.asarray(lp, np.float64).reshape(K)
+            x = mu + sigma * z
+            ref = (-0.5 * z ** 2 - np.log(sigma) - 0.5 * np.log(2 * np.pi) - np.log(2.0)
+                   + np.logaddexp(0.0, -x) + np.logaddexp(0.0, x)).sum(axis=1)
+            err = np.abs(lp - ref)
+            tol = 1e-6 if ctx.x64 else 5e-3
+            bad = good & ~(np.isfinite(lp) & (err <= tol * (1 + np.abs(ref) * 0.0)))
+            case = {"kind": "sac-saturated", "action_shape": list(shape), "pre_squash_mean": mu, "sigma": sigma,
+                    "keys": int(good.sum()), "non_finite_logps": int((~np.isfinite(lp[good])).sum()),
+                    "max_abs_error": float(np.nanmax(err[good])) if good.any() else 0.0}
+            ctx.case(case, True)
+            ctx.count("sac:saturated-draws", int(good.sum()))
+            if bad.any():
+                i = int(np.argmax(bad))
+                ctx.phi_fail("reported_logprob_is_logprob_of_action",
+                             {**case, "key_index": i, "reported": float(lp[i]), "log_density_of_pre_squash_draw": float(ref[i]),
+                              "action": np.asarray(act)[i]}, key="sac:saturated-logprob")
+
+
+def _q_exploration_many_keys(ctx):
+    """epsilon-greedy with a mask over very many keys: an exploration step that ranks actions by a random
+    priority can tie an allowed action with the masked ones for about one key in 2^23."""
+    if ctx.x64:
+        return
+    rng = ctx.rng
+    for n, mask in [(2, [False, True]), (3, [False, False, True])]:
+        policy = _construct(ctx, MLPQPolicy, f"Discrete({n})", Discrete(n), width_size=4, depth=1, epsilon=0.5,
+                            key=jr.key(int(rng.integers(2**31))))
+        if policy is None:
+            continue
+        obs = jnp.asarray(rng.uniform(-1, 1, OBS_DIM), dtype=float)
+        m = jnp.asarray(mask)
+        f = jax.jit(jax.vmap(lambda k: policy(None, obs, key=k, action_mask=m)[1]))
+        chunks, bad_key, total = ctx.budget(8, 32), None, 0
+        for c in range(chunks):
+            seed = int(rng.integers(0, 2**31))
+            out = np.asarray(f(jr.split(jr.key(seed), 1 << 22)))
+            total += out.size
+            bad = np.nonzero(~np.asarray(mask)[np.clip(out, 0, n - 1)] | (out < 0) | (out >= n))[0]
+            if len(bad) and bad_key is None:
+                bad_key = {"seed": seed, "index_in_split": int(bad[0]), "action": int(out[bad[0]])}
+        case = {"kind": "q-exploration-many-keys", "n_actions": n, "mask": mask, "epsilon": 0.5, "keys": total,
+                "first_bad": bad_key}
+        ctx.case(case, True)
+        ctx.count("q:masked-exploration-keys", total)
+        if bad_key is not None:
+            ctx.phi_fail("action_is_allowed", case, key="q:masked-action-chosen-many-keys")
+
+
 def run(ctx):
+    _sac_saturated(ctx)
+    _q_exploration_many_keys(ctx)
     _policy_sample_law(ctx)
     _actor_critic(ctx)
     _q_policy(ctx)
